@@ -66,6 +66,8 @@ type Ctl struct {
 	Host     string
 	// SlowSeed (non-zero): file operations take simulated time, see op()
 	SlowSeed uint64
+	// Persist: a fault that applies to every operation of its kind, for the whole run
+	Persist *Fault
 	// Killed: the signal that killed the simulated process ("" = it was not killed)
 	Killed string
 	dead   bool
